@@ -13,7 +13,12 @@ class Input:
 
 class RealInput(Input):
     def read_input(self, prompt):  # type: (str) -> str
-        return _my_input(prompt)
+        try:
+            return _my_input(prompt)
+        except UnicodeEncodeError:
+            # the prompt names a file whose name is not valid UTF-8
+            return _my_input(prompt.encode('utf-8', 'backslashreplace')
+                             .decode('utf-8'))
 
 
 class HardCodedInput(Input):
